@@ -1159,6 +1159,55 @@ def check_rscope(ctx, prog):
             bad.append((c, show_term(key)[:160]))
     ctx.ob("R-SCOPE", "the top-level bindings only ever receive top-level `let` items", not bad and n_mut >= 1,
            key="R-SCOPE:mut", where=b["span"], detail={"other writers": bad, "writers": n_mut})
+    check_ctx_bindings(ctx, lex)
+
+
+def check_ctx_bindings(ctx, lex):
+    """The automaton of a right context depends on the bindings in scope (the context may mention a
+    variable, and rule sets may bind the same name differently): on every path through
+    RightCtxDFAs::new_right_ctx to its return, some call receives both the bindings and the context's
+    regex. A path that hands out an index without consulting the bindings (a memo keyed by the regex as
+    written) gives a rule the automaton of another scope, and skips the unbound-variable check."""
+    from .rules_thompson import Sym, contains
+    b = lex.body("right_ctx::RightCtxDFAs::new_right_ctx")
+    if not ctx.ob("R-SCOPE", "RightCtxDFAs::new_right_ctx found", b is not None, key="R-SCOPE:ctx:anchor"):
+        return
+    blocks = b["mir"]["blocks"]
+    argc = b["mir"].get("argc", 3)
+    # parameters: self, bindings, right_ctx (by type)
+    locals_ = b["mir"]["locals"]
+    roles = {}
+    for i in range(1, argc + 1):
+        ty = str(locals_[i])
+        if "HashMap" in ty or "Map<" in ty:
+            roles[i] = "bindings"
+        elif ty.endswith("ast::Regex") or "Regex" in ty:
+            roles[i] = "right_ctx"
+        else:
+            roles[i] = "p%d" % i
+    if not ctx.ob("R-SCOPE", "new_right_ctx takes the bindings in scope and the context's regex",
+                  "bindings" in roles.values() and "right_ctx" in roles.values(), key="R-SCOPE:ctx:params",
+                  where=b["span"], detail=[str(locals_[i]) for i in range(1, argc + 1)]):
+        return
+    sym = Sym(b, roles, crate=lex)
+    dom = cfg.dominators(blocks)[0]
+    both = []
+    for bi, bb in enumerate(blocks):
+        t = bb["term"]
+        if bb["cleanup"] or t["k"] != "call":
+            continue
+        args = [sym.operand(a) for a in t["args"]]
+        if any(contains(a, lambda y: y == ("param", "bindings")) for a in args) and \
+                any(contains(a, lambda y: y == ("param", "right_ctx")) for a in args):
+            both.append(bi)
+    rets = [bi for bi, bb in enumerate(blocks) if not bb["cleanup"] and bb["term"]["k"] == "return" and bi in dom]
+    ok = bool(both) and bool(rets) and all(any(c in dom[r] for c in both) for r in rets)
+    ctx.ob("R-SCOPE", "every path through new_right_ctx compiles (or at least resolves) the context under the "
+           "bindings it was given: a call that receives both dominates the return", ok, key="R-SCOPE:ctx:bindings",
+           where=b["span"], detail={"calls that receive both": ["bb%d" % x for x in both],
+                                    "meaning": "an index handed out without looking at the bindings belongs to "
+                                               "another scope's automaton; an unbound variable in the context is "
+                                               "not noticed"})
 
 
 # ------------------------------------------------------------------------------------ R-CHK
